@@ -307,14 +307,26 @@ def applyDelta (s : St) (n : Name) : List (Key × Option Val) → St
 def checkMsg (c : CState) (signer : String) : Bool :=
   match c.ty with | .tss => c.x1 == signer | _ => true
 
+/-- the later of two heights in the order of `Height.GT`: revision first, then block number -/
+def Height.maxLex (a b : Height) : Height := if a.lt b then b else a
+
+/-- the client state stored by an accepted update. Tendermint (`update` in tendermint/types/update.go): the header's
+    height becomes the latest height only if it is GREATER in the (revision, block number) order — a valid late header
+    of an earlier revision, or a skipped past height, never moves the latest height back; everything else of the state
+    is what `CheckHeaderAndUpdateState` returned. The other types: as returned. -/
+def storedAfterUpdate (c : CState) (u : Update) (h : Height) : CState :=
+  match c.ty with
+  | .tm => { u.newC with ty := .tm, latest := Height.maxLex c.latest h }
+  | _ => u.newC
+
 /-- client keeper `UpdateClient` -/
 def updateClient (s : St) (u : Update) (c : CState) : Outcome St :=
   if status s u.name c ≠ .active then .err "not-active" else
   if !u.check then .err "header" else
-  let s1 := set (applyDelta s u.name u.delta) u.name .cs (.cstate u.newC)
   match u.hdr.height with
   | none => .panic "nil height"          -- header.GetHeight().String() on a nil interface
   | some h =>
+    let s1 := set (applyDelta s u.name u.delta) u.name .cs (.cstate (storedAfterUpdate c u h))
     match u.newK with
     | some k => .ok (set s1 u.name (.cons h) (.kstate k))
     | none => .ok s1
